@@ -59,6 +59,17 @@ func (c *AttrCache) ConfigureNegativeCaching(enable bool, ttl time.Duration) {
 	if ttl > 0 {
 		c.negativeTTL = ttl
 	}
+
+	// Negative entries exist only while negative caching is enabled: when it is
+	// switched off, the ones already stored must stop being served.
+	if !enable {
+		for path, cached := range c.cache {
+			if cached.isNegative {
+				c.removeFromAccessLog(path)
+				delete(c.cache, path)
+			}
+		}
+	}
 }
 
 // Get retrieves cached attributes if they exist and are not expired.
